@@ -119,6 +119,12 @@ def gen_regdefs(rng, nmax=4, delim=False, binary=False, same_window=False, sci=T
         for i in range(1, len(out)):
             if r2.random() < 0.6:
                 out[i]["parent"] = r2.randrange(i)
+    # two DIFFERENT classes with the same identifier and window (an old and a new layout of one record): the first declared wins
+    if not binary and not delim and r2.random() < 0.15 and out:
+        src = r2.choice(out)
+        twin = {"ident": src["ident"], "digits": src["digits"], "delim": src.get("delim"),
+                "fields": [fl.gen_field(r2, start=src["digits"] + r2.choice([0, 1]), sci=sci)]}
+        out.insert(r2.randrange(len(out) + 1), twin)
     # fields declared in an order different from their columns (the layout itself is unchanged)
     for rd in out:
         if len(rd["fields"]) > 1 and r2.random() < 0.3:
